@@ -6,7 +6,7 @@
    rows keeps the constructor's state.  [inverse] is the model of np.linalg.inv (Gauss-Jordan with partial
    pivoting); its agreement with numpy's is part of the correspondence run. *)
 From Coq Require Import ZArith List Bool Lia.
-From MW Require Import Num NumLaws Assoc AssocFacts Rng CF CFInv Matrix MatrixFacts Lin LinInv LinForget LinSim.
+From MW Require Import Num NumLaws Assoc AssocFacts Rng CF CFInv Matrix MatrixFacts GaussJordan Lin LinInv LinForget LinSim.
 Import ListNotations.
 
 Section LinSpec.
@@ -271,6 +271,27 @@ Proof.
   assert (EA : r_A mk = r_A mk') by congruence. assert (EX : r_Xty mk = r_Xty mk') by congruence.
   assert (EI : r_Ainv mk = r_Ainv mk') by (rewrite EA in C1; congruence).
   repeat split; auto. rewrite D1, D2, EI, EX. reflexivity.
+Qed.
+
+(* the coefficients are THE solution of the ridge normal equations: whenever some b satisfies
+   (lambda*I + X'X) b = X'y (it always does for lambda > 0 over the reals), beta = b *)
+Theorem lin_history_beta_is_the_ridge_solution (s0 : lin) g d0 rs0 cx0 (h : list batch) (a : A) (b : vec (R:=R)) :
+  lin_keys_ok s0 -> In a (l_arms s0) -> l_scale s0 = false ->
+  snd (lin_fit N aeqb s0 g d0 rs0 cx0) = true ->
+  snd (lin_partials (fst (lin_fit N aeqb s0 g d0 rs0 cx0)) g h) = true ->
+  let d := ncols cx0 in
+  let mk := model (fst (lin_partials (fst (lin_fit N aeqb s0 g d0 rs0 cx0)) g h)) a in
+  let bs := arm_batches a ((d0, rs0, cx0) :: h) in
+  let X := concat (map fst bs) in let y := concat (map snd bs) in
+  bs <> [] -> length b = d ->
+  mat_vec N (madd N (mscale N (l_l2 s0) (identity N d)) (xtx N d X)) b = vadd N (zeros N d) (xty N d X y) ->
+  r_beta mk = b.
+Proof.
+  intros Hk Hin Hsc O1 O2 d mk bs X y Hne Hb Hsol.
+  destruct (lin_history_normal_equations s0 g d0 rs0 cx0 h a Hk Hin Hsc O1 O2) as [_ H].
+  destruct (H Hne) as (A1 & B1 & C1 & D1). fold mk in A1, B1, C1, D1. fold d in A1, B1, C1. fold bs in A1, B1. fold X in A1, B1. fold y in B1.
+  rewrite D1, B1, <- Hsol. rewrite A1 in C1.
+  apply (inverse_solves N L d _ _ b (wfA_ridge_matrix N d (l_l2 s0) X) C1 Hb).
 Qed.
 
 End LinSpec.
